@@ -589,7 +589,7 @@ Section Matches.
   Qed.
 End Matches.
 
-(* ------------------------------------------------------------------ the flags of the inverted reference *)
+(* ------------------------------------------------------------------ list helpers for flag lists *)
 Lemma map_const {A B} (b : B) (l : list A) : map (fun _ => b) l = repeat b (length l).
 Proof. induction l as [|x l IH]; [reflexivity|]. cbn [map length repeat]. now rewrite IH. Qed.
 
@@ -620,194 +620,11 @@ Proof.
       apply IH; [intros t Ht; apply H; lia|lia|lia].
 Qed.
 
-Section InvFlags.
-  Variable ltb : byte.
-  Variable find_at : bytes -> nat -> option (nat * nat).
-  Variable s : bytes.
-  Notation L := (split_lines ltb s).
-  Notation n := (length (split_lines ltb s)).
-  Notation cnt := (count_lt ltb s).
-  Notation off := (off ltb s).
-  Notation lidx := (lidx ltb s).
 
-  Definition spanf (t : nat) : nat * nat * bool := (off t, off (S t), lt_is_suffix (LTByte ltb) (nth t L [])).
-  Definition spans_from (k : nat) : list (nat * nat * bool) := map spanf (seq k (n - k)).
-
-  Lemma spans_all : line_spans ltb L 0 = spans_from 0.
-  Proof. unfold spans_from. rewrite Nat.sub_0_r. apply line_spans_idx. Qed.
-
-  Lemma spans_from_length k : length (spans_from k) = n - k.
-  Proof. unfold spans_from. now rewrite map_length, seq_length. Qed.
-
-  Lemma spans_skip k m : k + m <= n -> skipn m (spans_from k) = spans_from (k + m).
-  Proof.
-    intro H. unfold spans_from. rewrite skipn_map, skipn_seq. do 2 f_equal. lia.
-  Qed.
-
-  Lemma inv_flags_nil fuel p : inv_flags find_at fuel s [] p = [].
-  Proof. destruct fuel; reflexivity. Qed.
-
-  Lemma inv_flags_none f k : k < n -> find_at s (off k) = None ->
-    inv_flags find_at (S f) s (spans_from k) (off k) = repeat true (n - k).
-  Proof.
-    intros Hk E. cbn [inv_flags].
-    destruct (spans_from k) as [|sp r] eqn:Es.
-    { apply (f_equal (@length _)) in Es. rewrite spans_from_length in Es. cbn in Es. lia. }
-    pose proof (off_strict ltb s k n Hk (le_n _)) as Hlt. rewrite (off_n ltb s n) in Hlt by lia.
-    destruct (Nat.leb_spec (length s) (off k)); [lia|]. rewrite E.
-    rewrite map_const, <- Es, spans_from_length. reflexivity.
-  Qed.
-
-  Lemma last_span i m : rev (map spanf (seq i (S m))) = spanf (i + m) :: rev (map spanf (seq i m)).
-  Proof. rewrite seq_S, map_app, rev_app_distr. reflexivity. Qed.
-
-  Theorem inv_flags_some f k a b : k < n -> find_at s (off k) = Some (a, b) ->
-    off k <= a -> a <= b -> b <= length s ->
-    let i := fst (iv ltb s (a, b)) in let j := snd (iv ltb s (a, b)) in
-    k <= i /\ i <= j /\ j <= n /\ (i < j \/ i = n) /\
-    inv_flags find_at (S f) s (spans_from k) (off k) =
-    repeat true (i - k) ++ repeat false (j - i) ++ inv_flags find_at f s (spans_from j) (off j).
-  Proof.
-    intros Hk E Ha Hab Hb. cbn zeta.
-    pose proof (iv_bounds ltb s a b Hab) as [B1 B2].
-    pose proof (n_le_Scnt ltb s) as Hn. pose proof (cnt_le_n ltb s) as Hc.
-    assert (Hki : k <= fst (iv ltb s (a, b))).
-    { unfold iv. cbn [fst]. apply (off_le_iff ltb s k a); [lia|exact Ha]. }
-    assert (Hne : fst (iv ltb s (a, b)) < snd (iv ltb s (a, b)) \/ fst (iv ltb s (a, b)) = n).
-    { unfold iv in *. cbn [fst snd] in *. pose proof (lidx_iv_le ltb s a b Hab). pose proof (lidx_le_cnt ltb s a). lia. }
-    assert (Hcov : forall t, t < n -> (let '(ls, le, tm) := spanf t in covers (length s) ls le tm (a, b)) = in_iv t (iv ltb s (a, b))).
-    { intros t Ht. unfold spanf. apply covers_iv; assumption. }
-    destruct (iv ltb s (a, b)) as [i j] eqn:Eiv. cbn [fst snd] in *.
-    assert (Ei : i = lidx a) by (unfold iv in Eiv; congruence).
-    split; [exact Hki|]. split; [exact B1|]. split; [exact B2|]. split; [exact Hne|].
-    cbn [inv_flags].
-    destruct (spans_from k) as [|sp r] eqn:Es.
-    { apply (f_equal (@length _)) in Es. rewrite spans_from_length in Es. cbn in Es. lia. }
-    rewrite <- Es. clear Es sp r.
-    pose proof (off_strict ltb s k n Hk (le_n _)) as Hlt. rewrite (off_n ltb s n) in Hlt by lia.
-    destruct (Nat.leb_spec (length s) (off k)); [lia|]. rewrite E. cbn [fst].
-    (* the lines before the match *)
-    assert (Hbefore : filter (fun sp : nat * nat * bool => let '(ls, le, t) := sp in
-                                negb (covers (length s) ls le t (a, b)) && Nat.leb le a) (spans_from k)
-                      = map spanf (seq k (i - k))).
-    { unfold spans_from. apply filter_seq_prefix; [|exact Hki|lia].
-      intros t Ht. specialize (Hcov t ltac:(lia)). unfold spanf in *. rewrite Hcov.
-      unfold in_iv. cbn [fst snd].
-      destruct (Nat.le_gt_cases (S t) cnt) as [Hs|Hs].
-      - pose proof (off_le_iff ltb s (S t) a Hs) as Hiff. fold (lidx a) in Hiff. rewrite <- Ei in Hiff.
-        destruct (Nat.leb_spec i t); destruct (Nat.ltb_spec t j); destruct (Nat.leb_spec (off (S t)) a);
-          destruct (Nat.ltb_spec t i); cbn [andb negb]; try reflexivity; lia.
-      - (* t is the unterminated last line *)
-        assert (t = cnt /\ n = S cnt) as [-> Hn'] by lia.
-        rewrite (off_n ltb s (S cnt)) by lia.
-        destruct (Nat.leb_spec (length s) a) as [Hla|Hla].
-        + assert (Hal : a = length s) by lia.
-          assert (Hi0 : i = cnt) by (rewrite Ei, Hal; apply lidx_all; lia).
-          assert (Hj0 : j = n).
-          { unfold iv in Eiv. injection Eiv as _ Hj. rewrite <- Hj, Hal.
-            replace (Nat.max (length s) (b - 1)) with (length s) by lia.
-            rewrite (MLGeometry.lidx_all ltb s (length s)) by lia. lia. }
-          rewrite Hi0, Hj0. destruct (Nat.leb_spec cnt cnt); [|lia]. destruct (Nat.ltb_spec cnt n); [|lia].
-          destruct (Nat.ltb_spec cnt cnt); [lia|]. reflexivity.
-        + rewrite andb_false_r. pose proof (lidx_le_cnt ltb s a). destruct (Nat.ltb_spec cnt i); [lia|reflexivity]. }
-    rewrite Hbefore, map_length, seq_length.
-    rewrite (spans_skip k (i - k)) by lia. replace (k + (i - k)) with i by lia.
-    (* the lines of the match *)
-    assert (Hcovered : filter (fun sp : nat * nat * bool => let '(ls, le, t) := sp in covers (length s) ls le t (a, b))
-                              (spans_from i) = map spanf (seq i (j - i))).
-    { unfold spans_from. apply filter_seq_prefix; [|exact B1|lia].
-      intros t Ht. specialize (Hcov t ltac:(lia)). unfold spanf in *. rewrite Hcov.
-      unfold in_iv. cbn [fst snd]. destruct (Nat.leb_spec i t); [reflexivity|lia]. }
-    rewrite Hcovered, map_length, seq_length.
-    rewrite (spans_skip i (j - i)) by lia. replace (i + (j - i)) with j by lia.
-    rewrite !map_const, !map_length, !seq_length. f_equal. f_equal.
-    destruct Hne as [Hij| ->].
-    - replace (j - i) with (S (j - i - 1)) by lia. rewrite last_span. unfold spanf at 1.
-      replace (S (i + (j - i - 1))) with j by lia.
-      pose proof (off_strict ltb s k j ltac:(lia) B2). f_equal. lia.
-    - assert (j = n) by lia. subst j. unfold spans_from. rewrite Nat.sub_diag. cbn [seq map].
-      now rewrite !inv_flags_nil.
-  Qed.
-End InvFlags.
-
-(* ------------------------------------------------------------------ the matches of the inverted search *)
+(* ------------------------------------------------------------------ ranges that start later do not reach back *)
 Lemma flagf_lower ivs lo t : Forall (fun b : nat * nat => lo <= fst b) ivs -> t < lo -> flagf ivs t = false.
 Proof.
   induction 1 as [|[i j] r H _ IH]; intro Ht; [reflexivity|]. unfold flagf. cbn [existsb]. fold (flagf r t).
   rewrite (IH Ht). unfold in_iv. cbn [fst snd] in *. destruct (Nat.leb_spec i t); [lia|reflexivity].
 Qed.
 
-Section InvMatches.
-  Variable ltb : byte.
-  Variable find_at : bytes -> nat -> option (nat * nat).
-  Hypothesis Hfa : forall s p a b, find_at s p = Some (a, b) -> p <= a /\ a <= b /\ b <= length s.
-  Variable s : bytes.
-  Notation n := (length (split_lines ltb s)).
-  Notation off := (off ltb s).
-  Notation ivf := (iv ltb s).
-
-  (* the inverted search looks for the next match from the start of line k and resumes after the
-     last line of that match *)
-  Fixpoint inv_ms (fuel k : nat) : list (nat * nat) :=
-    match fuel with
-    | 0 => []
-    | S f =>
-      if Nat.leb n k then [] else
-      match find_at s (off k) with
-      | None => []
-      | Some m => m :: inv_ms f (snd (ivf m))
-      end
-    end.
-
-  Lemma inv_ms_props : forall f k, k <= n ->
-    Forall (fun m => wf_match s m /\ k <= fst (ivf m)) (inv_ms f k).
-  Proof.
-    induction f as [|f IH]; intros k Hk; [constructor|]. cbn [inv_ms].
-    destruct (Nat.leb_spec n k) as [Hge|Hlt]; [constructor|].
-    destruct (find_at s (off k)) as [[a b]|] eqn:E; [|constructor].
-    destruct (Hfa s (off k) a b E) as (A1 & A2 & A3).
-    destruct (inv_flags_some ltb find_at s 0 k a b Hlt E A1 A2 A3) as (V1 & V2 & V3 & V4 & _).
-    constructor; [split; [split; assumption|exact V1]|].
-    eapply Forall_impl; [|apply (IH _ V3)]. intros m [W1 W2]. split; [exact W1|lia].
-  Qed.
-
-  Theorem inv_flags_neg : forall f k, k <= n -> (k < n -> length s - off k < f) ->
-    inv_flags find_at f s (spans_from ltb s k) (off k)
-    = map (fun t => negb (flagf (map ivf (inv_ms f k)) t)) (seq k (n - k)).
-  Proof.
-    induction f as [|f IH]; intros k Hk Hf.
-    - assert (k = n) by (destruct (Nat.eq_dec k n); [assumption|specialize (Hf ltac:(lia)); lia]). subst k.
-      unfold spans_from. rewrite Nat.sub_diag. reflexivity.
-    - destruct (Nat.eq_dec k n) as [->|Hne].
-      { unfold spans_from. rewrite Nat.sub_diag. reflexivity. }
-      assert (Hlt : k < n) by lia. specialize (Hf Hlt).
-      cbn [inv_ms]. destruct (Nat.leb_spec n k) as [Hge|_]; [lia|].
-      destruct (find_at s (off k)) as [[a b]|] eqn:E.
-      + destruct (Hfa s (off k) a b E) as (A1 & A2 & A3).
-        destruct (inv_flags_some ltb find_at s f k a b Hlt E A1 A2 A3) as (V1 & V2 & V3 & V4 & Hflags).
-        cbn zeta in Hflags. rewrite Hflags. clear Hflags. cbn [map].
-        pose proof (inv_ms_props f (snd (ivf (a, b))) V3) as Hprops.
-        destruct (ivf (a, b)) as [i j] eqn:Eiv. cbn [fst snd] in *.
-        rewrite IH; [|exact V3|].
-        2:{ intro Hj. assert (k < j) by lia. pose proof (off_strict ltb s k j ltac:(lia) V3).
-            pose proof (off_strict ltb s j n Hj (le_n _)) as Hjn. rewrite (off_n ltb s n) in Hjn by lia. lia. }
-        set (rest := map ivf (inv_ms f j)) in *.
-        assert (Hrest : Forall (fun b0 : nat * nat => j <= fst b0) rest).
-        { unfold rest. apply Forall_forall. intros b0 Hb0. apply in_map_iff in Hb0 as (m & <- & Hm).
-          rewrite Forall_forall in Hprops. apply (Hprops m Hm). }
-        replace (n - k) with ((i - k) + ((j - i) + (n - j))) by lia.
-        rewrite !seq_app, !map_app. replace (k + (i - k)) with i by lia. replace (i + (j - i)) with j by lia.
-        cbn [map]. f_equal; [|f_equal].
-        * rewrite <- (seq_length (i - k) k) at 1. rewrite <- map_const. apply map_ext_in.
-          intros t Ht. apply in_seq in Ht. unfold flagf. cbn [existsb]. fold (flagf rest t).
-          rewrite (flagf_lower rest j t Hrest) by lia. unfold in_iv. cbn [fst snd].
-          destruct (Nat.leb_spec i t); [lia|reflexivity].
-        * rewrite <- (seq_length (j - i) i) at 1. rewrite <- map_const. apply map_ext_in.
-          intros t Ht. apply in_seq in Ht. unfold flagf. cbn [existsb]. unfold in_iv at 1. cbn [fst snd].
-          destruct (Nat.leb_spec i t); [|lia]. destruct (Nat.ltb_spec t j); [reflexivity|lia].
-        * apply map_ext_in. intros t Ht. apply in_seq in Ht. unfold flagf at 2. cbn [existsb]. fold (flagf rest t).
-          unfold in_iv. cbn [fst snd]. destruct (Nat.ltb_spec t j); [lia|]. now rewrite andb_false_r.
-      + rewrite (inv_flags_none ltb find_at s f k Hlt E).
-        rewrite <- (seq_length (n - k) k) at 1. rewrite <- map_const. apply map_ext. reflexivity.
-  Qed.
-End InvMatches.
